@@ -8,6 +8,7 @@ import JubakoModel.Lemmas.FuncsBytes
 import JubakoModel.Lemmas.FuncsDir
 import JubakoModel.Lemmas.FuncsSearch
 import JubakoModel.Lemmas.FuncsStats
+import JubakoModel.Lemmas.FuncsEntry
 
 namespace Jubako
 
@@ -211,6 +212,72 @@ theorem c02_column_finalisation_is_source_finalisation (stores : List VStore) (n
     translated dispatcher agrees -/
 example : (finalizeProp [] ⟨[110], .uint⟩ [.u 3, .u 200]).toSrc =
     (processColumn (.unsignedInt .none (.auto 0) [110]) [.unsigned 3, .unsigned 200]).map (Generated.schemaPropertyFinalize (fun _ => 0)) := by
+  decide
+
+/-- a finalised property accepts every value of the column it was finalised over (a default is only set when
+    every value of the column equals it; array properties always refer to their value store) -/
+theorem finalizeProp_valueOK (stores : List VStore) (pd : PropDef) (col : List Val) (v : Val) (hv : v ∈ col) :
+    (finalizeProp stores pd col).ValueOK v := by
+  unfold finalizeProp
+  cases pd.ty with
+  | uint =>
+    simp only []
+    cases hc : constantOf (col.map uintOf) with
+    | none => simp [RawProp.ValueOK]
+    | some d =>
+      have := (constantOf_some _ _ hc).2 (uintOf v) (List.mem_map_of_mem hv)
+      simp [RawProp.ValueOK, this]
+  | sint =>
+    simp only []
+    cases hc : constantOf (col.map sintOf) with
+    | none => simp [RawProp.ValueOK]
+    | some d =>
+      have := (constantOf_some _ _ hc).2 (sintOf v) (List.mem_map_of_mem hv)
+      simp [RawProp.ValueOK, this]
+  | content =>
+    simp only []
+    cases hc : constantOf (col.map packOf) with
+    | none => simp [RawProp.ValueOK]
+    | some d =>
+      have := (constantOf_some _ _ hc).2 (packOf v) (List.mem_map_of_mem hv)
+      simp [RawProp.ValueOK, this]
+  | array fixed store =>
+    simp only []
+    split <;> simp [RawProp.ValueOK]
+
+/-- **The entry serialiser of the writer model is the source's.**  Translated on every run from
+    `creator/directory_pack/layout/{property,properties}.rs`:
+    * `Property::size` gives, for every finalised property within the header ranges, the size the model's
+      layout records (the sum of these is the entry size the reader steps by);
+    * `Properties::fill_to_size` terminates and appends exactly the model's variant paddings, for all sizes;
+    * the per-key body of `Properties::serialize_entry`, run key after key over a layout, never errs or panics
+      on values accepted by the properties (`ValueOK` — which every value of a finalised column is) and writes
+      exactly the bytes of the model's `serializeProps`: integers little-endian in the property's width
+      (signed ones in two's complement), nothing for a property with a default, pack id then content id,
+      array length then inline prefix zero-filled to the inline length then the value-store key, zero bytes
+      for paddings, the variant number for the variant id. -/
+theorem c02_entry_serialiser_is_source_serialiser (stores : List VStore) :
+    (∀ pd col src, (finalizeProp stores pd col).HeaderWF → (finalizeProp stores pd col).toSrc = some src →
+      Generated.layoutPropertySize src = (finalizeProp stores pd col).size) ∧
+    (∀ cur size, Generated.fillToSize cur size = some ((paddingProps (size - cur)).map (·.size))) ∧
+    (∀ pd col v, v ∈ col → (finalizeProp stores pd col).ValueOK v) ∧
+    (∀ variant ps vals, (∀ x ∈ pairProps ps vals, x.1.ValueOK x.2) →
+      (entryWrites variant (srcPairs stores (pairProps ps vals))).map writesBytes =
+        some (serializeProps stores variant ps vals)) :=
+  ⟨fun pd col src hw hs => gen_layoutPropertySize _ src hs hw (finalizeProp_kindSize stores pd col),
+   gen_fillToSize,
+   finalizeProp_valueOK stores,
+   fun variant ps vals h => gen_serializeProps stores variant ps vals h⟩
+
+/-- non-vacuity: an entry with an unsigned, a defaulted signed, a content address and an array with a
+    two-byte inline prefix — the translated loop writes what the model writes -/
+example :
+    let stores : List VStore := [⟨false, [[3, 4]]⟩]
+    let ps : List RawProp := [⟨2, [120], .uint 2 none⟩, ⟨0, [121], .sint 1 (some (-2))⟩, ⟨3, [99], .content 1 2 none⟩,
+      ⟨4, [97], .array (some 1) 2 (some (1, 0)) none⟩, ⟨3, [], .padding⟩]
+    let vals : List Val := [.u 513, .s (-2), .content 1 300, .arr [1, 2, 3, 4]]
+    (entryWrites none (srcPairs stores (pairProps ps vals))).map writesBytes = some (serializeProps stores none ps vals) ∧
+      serializeProps stores none ps vals = [1, 2, 1, 44, 1, 4, 1, 2, 0, 0, 0, 0] := by
   decide
 
 end Jubako
